@@ -56,7 +56,7 @@ func init() {
 	core.Register(&core.Prop{
 		ID:    "C14",
 		Level: "exploration",
-		Rule: "pairs (chart tree, values): trees root / root+child / +grandchild / +aliased or tagged sibling, each chart with or without a values.schema.json drawn from the family {type (7 names, lists), required, enum, minimum/maximum, minLength/maxLength, pattern, nested properties, additionalProperties true|false|schema, items, $schema draft-07|2020-12|none}; values built to satisfy every schema, to break exactly one keyword at one chart, or at random, then spread over the chart's own values.yaml, ancestor sections and user values (with overridden decoys and user nulls); subcharts switched off by condition/tags; each pair runs through install dry-run, real install, upgrade, client-only template, lint, and the skip-schema-validation variants. " +
+		Rule: "pairs (chart tree, values): trees root / root+child / +grandchild / +aliased or tagged sibling, each chart with or without a values.schema.json drawn from the family {type (7 names, lists), required, enum, minimum/maximum, minLength/maxLength, pattern, nested properties, additionalProperties true|false|schema, items, $schema draft-07|2020-12|none}; values built to satisfy every schema, to break exactly one keyword at one chart, or at random, then spread over the chart's own values.yaml, ancestor sections and user values (with overridden decoys and user nulls); subcharts switched off by condition/tags; 35% of the trees carry crds/ directories (root and subcharts, enabled or disabled); each pair runs through install dry-run, real install, upgrade, client-only template, lint, and the skip-schema-validation variants. " +
 			"distinct_nontrivial counts distinct (entry point, violating chart levels, first violated keyword, source of the planted violation) tuples of REJECT-expected pairs whose violation sits in a subchart or arrives from a non-default source, plus disabled-subchart-violates shapes.",
 		Assumptions: []string{
 			"effective values and the enabled set are taken from helm's own ProcessDependencies/CoalesceValues (judged by C04/C11)",
@@ -288,6 +288,7 @@ func run(c core.Case, verbose bool) core.Result {
 		}
 		rng := rand.New(rand.NewSource(d.PSeed + int64(i)*7919))
 		p := newPair(rng)
+		p.assignCRDs(rand.New(rand.NewSource(d.PSeed ^ (int64(i) * 104729))))
 		asFloat := rng.Intn(2) == 0
 		drySpelling := []string{"flag", "client", "server"}[rng.Intn(3)]
 		v, problem := judge(p, asFloat)
@@ -310,6 +311,27 @@ func run(c core.Case, verbose bool) core.Result {
 			}
 		} else {
 			res.Stat("expected_accept", 1)
+		}
+		enabledCRDs, disabledCRDs := 0, 0
+		for _, ch := range p.Charts {
+			on := ch.Enabled
+			for a := ch.Parent; a != nil; a = a.Parent {
+				on = on && a.Enabled
+			}
+			if ch.CRDs && on {
+				enabledCRDs++
+			} else if ch.CRDs {
+				disabledCRDs++
+			}
+		}
+		if enabledCRDs+disabledCRDs > 0 {
+			res.Stat("pairs_with_crds_directory", 1)
+		}
+		if v.reject() && enabledCRDs > 0 {
+			res.Stat("expected_reject_with_crds_in_enabled_chart", 1)
+		}
+		if disabledCRDs > 0 {
+			res.Stat("pairs_with_crds_in_disabled_subchart", 1)
 		}
 		if v.twice {
 			res.Stat("pairs_where_lint_values_differ_from_install_values", 1)
@@ -499,7 +521,13 @@ func run(c core.Case, verbose bool) core.Result {
 					}
 				}
 				for _, ev := range o.mutations {
-					res.Add("writes-on-reject", fmt.Sprintf("%s: %s %s", label, ev.Method, ev.Kind), "%s %s -> %d although the values violate the schema | %s", ev.Method, ev.Path, ev.Code, detail())
+					cl := fmt.Sprintf("%s: %s %s", label, ev.Method, ev.Kind)
+					if ev.Kind == "CustomResourceDefinition" && ev.Method == "POST" && e.name == "install" {
+						// its own cause shape, so that it never masks other writes on reject
+						cl = "install: CRDs from crds/ created before the schema gate"
+						res.Stat("crd_posts_on_rejected_install", 1)
+					}
+					res.Add("writes-on-reject", cl, "%s %s -> %d although the values violate the schema | %s", ev.Method, ev.Path, ev.Code, detail())
 				}
 				for _, ev := range o.stWrites {
 					res.Add("writes-on-reject", fmt.Sprintf("%s: %s release-record", label, ev.Method), "%s %s -> %d although the values violate the schema | %s", ev.Method, ev.Path, ev.Code, detail())
@@ -593,6 +621,8 @@ func post(a *core.Agg) string {
 	need("expected_reject_at_grandchild", 20)
 	need("expected_accept_only_because_violating_subchart_is_disabled", 3)
 	need("skip_ops_not_rejected_on_violating_values", 50)
+	need("expected_reject_with_crds_in_enabled_chart", 50)
+	need("pairs_with_crds_in_disabled_subchart", 10)
 	need("accepted_real_op_mutations", 1)
 	need("accepted_real_op_storage_writes", 1)
 	for _, e := range []string{"install-dry-run", "install", "upgrade", "template", "lint"} {
